@@ -151,15 +151,59 @@ func c15Routes(run *vfRun, w *vfWorld) {
 		queries := c15Queries(rs.Literals)
 		type job struct {
 			ch, m, p, q string
+			hdr         []string
 		}
 		var jobs []job
+		// "other headers have no influence on that decision": for every (method, path) a set of headers naming ANOTHER
+		// method / URI for which the reference decides the opposite way (method-override and original-URI conventions of
+		// various front proxies). Without reverse-proxy mode none of them is honoured; in reverse-proxy mode only
+		// X-Forwarded-Uri is, so that instance gets the others.
+		opposite := func(m, p string) (string, string) {
+			base := c15Exempt(rules, rs.Preflight, m, p)
+			om, op := "", ""
+			for _, m2 := range []string{"GET", "POST", "PUT", "DELETE", "OPTIONS", "HEAD", "PATCH"} {
+				if c15Exempt(rules, rs.Preflight, m2, p) != base {
+					om = m2
+					break
+				}
+			}
+			for _, p2 := range rs.Paths {
+				if c15Exempt(rules, rs.Preflight, m, p2) != base {
+					op = p2
+					break
+				}
+			}
+			return om, op
+		}
+		for _, m := range c15Methods {
+			for _, p := range rs.Paths {
+				om, op := opposite(m, p)
+				if om != "" {
+					for _, h := range []string{"X-Forwarded-Method", "X-Http-Method-Override", "X-Original-Method", "X-Method-Override", "X-Http-Method"} {
+						jobs = append(jobs, job{ch: "noise-direct", m: m, p: p, hdr: []string{h, om}})
+						if h != "X-Forwarded-Method" {
+							jobs = append(jobs, job{ch: "noise-rp", m: m, p: p, hdr: []string{h, om}})
+						}
+					}
+				}
+				if op != "" {
+					for _, h := range []string{"X-Forwarded-Uri", "X-Original-Uri", "X-Original-Url", "X-Rewrite-Url", "X-Forwarded-Path", "X-Forwarded-Prefix", "X-Envoy-Original-Path"} {
+						jobs = append(jobs, job{ch: "noise-direct", m: m, p: p, hdr: []string{h, op}})
+						jobs = append(jobs, job{ch: "noise-direct-auth", m: m, p: p, hdr: []string{h, op}})
+						if h != "X-Forwarded-Uri" {
+							jobs = append(jobs, job{ch: "noise-rp", m: m, p: p, hdr: []string{h, op}})
+						}
+					}
+				}
+			}
+		}
 		for _, m := range c15Methods {
 			for _, p := range rs.Paths {
 				for qi, q := range queries {
-					jobs = append(jobs, job{"path", m, p, q})
+					jobs = append(jobs, job{ch: "path", m: m, p: p, q: q})
 					// the other channels get a thinner slice in the quick tier
 					if run.Env.Thorough() || qi%3 == 0 || strings.Contains(q, p) {
-						jobs = append(jobs, job{"xfu-auth", m, p, q}, job{"xfu-path", m, p, q})
+						jobs = append(jobs, job{ch: "xfu-auth", m: m, p: p, q: q}, job{ch: "xfu-path", m: m, p: p, q: q})
 					}
 				}
 			}
@@ -170,7 +214,7 @@ func c15Routes(run *vfRun, w *vfWorld) {
 			for _, p := range rs.Paths {
 				for _, l := range rs.Literals {
 					for _, v := range []string{p + "%zz?x=" + l, p + "%?" + l, p + "%g1?y=1&" + l, "/" + p + "?x=" + l, "/" + p, p + "#" + l, p + "#f?x=" + l, p + "?x=1#" + l, "//evil.test" + p, p + "%zz", p + "\\" + l} {
-						jobs = append(jobs, job{"xfu-auth-raw", m, v, ""}, job{"xfu-path-raw", m, v, ""})
+						jobs = append(jobs, job{ch: "xfu-auth-raw", m: m, p: v}, job{ch: "xfu-path-raw", m: m, p: v})
 					}
 				}
 			}
@@ -202,7 +246,7 @@ func c15Routes(run *vfRun, w *vfWorld) {
 				for _, p := range rs.Paths {
 					for _, q := range []string{"", "?x=1", "?x=" + rs.Literals[0]} {
 						for oi := range orders {
-							jobs = append(jobs, job{fmt.Sprintf("order:%d", oi), m, p, q})
+							jobs = append(jobs, job{ch: fmt.Sprintf("order:%d", oi), m: m, p: p, q: q})
 						}
 					}
 				}
@@ -223,6 +267,15 @@ func c15Routes(run *vfRun, w *vfWorld) {
 			case "xfu-path": // reverse-proxy mode, header names another URI than the request line
 				req = vfNewReq(j.m, "/elsewhere?z=9", "X-Forwarded-Uri", j.p+j.q, "X-Vf-Id", id)
 				resp = rp.Do(req)
+			case "noise-direct":
+				req = vfNewReq(j.m, j.p, "X-Vf-Id", id).H(j.hdr[0], j.hdr[1])
+				resp = direct.Do(req)
+			case "noise-rp":
+				req = vfNewReq(j.m, j.p, "X-Vf-Id", id).H(j.hdr[0], j.hdr[1])
+				resp = rp.Do(req)
+			case "noise-direct-auth": // the auth-only endpoint of an instance that is NOT in reverse-proxy mode decides on its own path
+				req = vfNewReq(j.m, "/oauth2/auth", "X-Vf-Id", id).H(j.hdr[0], j.hdr[1])
+				resp = direct.Do(req)
 			case "xfu-auth-raw":
 				req = vfNewReq(j.m, "/oauth2/auth", "X-Forwarded-Uri", j.p, "X-Vf-Id", id)
 				resp = rp.Do(req)
@@ -244,10 +297,13 @@ func c15Routes(run *vfRun, w *vfWorld) {
 					refPath = refPath[:k]
 				}
 			}
+			if j.ch == "noise-direct-auth" {
+				refPath = "/oauth2/auth"
+			}
 			want := c15Exempt(rules, rs.Preflight, j.m, refPath)
 			var got bool
 			switch j.ch {
-			case "xfu-auth", "xfu-auth-raw":
+			case "xfu-auth", "xfu-auth-raw", "noise-direct-auth":
 				got = resp.Code == 202
 			default:
 				got = len(w.Up.FindHit(id)) > 0
@@ -257,6 +313,8 @@ func c15Routes(run *vfRun, w *vfWorld) {
 			}
 			qc := "none"
 			switch {
+			case len(j.hdr) > 0:
+				qc = "hdr:" + j.hdr[0]
 			case j.q == "" || j.q == "?" || j.q == "?x=1":
 				qc = "plain"
 			default:
@@ -274,7 +332,12 @@ func c15Routes(run *vfRun, w *vfWorld) {
 			run.Count("route_requests", 1)
 			if got != want {
 				sig := "c15:route-decision-differs"
-				run.Violation(sig, fmt.Sprintf("rule set %q, %s %s%s via %s: exempt=%v, reference says %v (status %d)", rs.Name, j.m, j.p, j.q, j.ch, got, want, resp.Code),
+				hd := ""
+				if len(j.hdr) > 0 {
+					sig = "c15:route-decision-influenced-by-header"
+					hd = fmt.Sprintf(" with %s: %s", j.hdr[0], j.hdr[1])
+				}
+				run.Violation(sig, fmt.Sprintf("rule set %q, %s %s%s%s via %s: exempt=%v, reference says %v (status %d)", rs.Name, j.m, j.p, j.q, hd, j.ch, got, want, resp.Code),
 					c15Case{Set: rs.Name, Channel: j.ch, Method: j.m, Path: j.p, Query: j.q, Flags: rs.Flags, Expect: want, Got: got, Status: resp.Code})
 			}
 			run.SampleEvery(997, func() interface{} {
@@ -301,6 +364,8 @@ func c15NetSets() []c15NetSet {
 		{"v6", []string{"2001:db8::/120", "2001:db8::800/117", "2001:db8::401/128"}},
 		{"mixed", []string{"192.168.4.0/23", "2001:db8::400/118", "::ffff:192.168.8.0/120", "2001:db8::fff"}},
 		{"all-v6", []string{"::/0"}},
+		// nested networks sharing their base address, the narrower one listed first (and an IPv4-mapped spelling of a nested one)
+		{"nested-same-base", []string{"192.168.0.0/24", "192.168.0.0/21", "2001:db8::/124", "2001:db8::/118", "::ffff:192.168.8.0/120", "192.168.8.0/22", "192.168.12.0", "192.168.12.0/23"}},
 	}
 }
 
@@ -399,8 +464,18 @@ func c15Addresses(run *vfRun, w *vfWorld) {
 		if err != nil {
 			run.T.Fatalf("net set %s rp xff: %v", ns.Name, err)
 		}
+		// the same networks configured in reverse order: the decision must not depend on the order
+		var revFlags []string
+		for i := len(flags) - 1; i >= 0; i-- {
+			revFlags = append(revFlags, flags[i])
+		}
+		reversed, err := w.NewProxy(revFlags...)
+		if err != nil {
+			run.T.Fatalf("net set %s reversed: %v", ns.Name, err)
+		}
 		ref := c15RefPrefixes(ns.Nets)
 		addrs := c15Universe(ref, run.Env.Thorough())
+		garbage := []string{"unknown", "300.1.1.1", "::ffff:999.1.1.1", "1.2.3", "192.168.1", "localhost", "-", "2001:db8::zz", "0x7f.1", "unknown, %s", "_hidden, %s"}
 		vfParallel(len(addrs), 16, func(i int) {
 			ad := addrs[i]
 			want := c15InAny(ref, ad.A)
@@ -438,6 +513,35 @@ func c15Addresses(run *vfRun, w *vfWorld) {
 				})
 			}
 			try("remoteaddr", direct, vfGET("/x").From(hostport), true)
+			try("remoteaddr-reversed-config", reversed, vfGET("/x").From(hostport), true)
+			// reverse-proxy mode, the real-client-IP header is present but its (first) element is not an address: the client
+			// address is then not inside any network — the address of the PEER (the front proxy, here inside a configured
+			// network) must not be used instead. (No header at all is a different situation, see below.)
+			if want && (ad.Pos != "universe" || i%64 == 0) {
+				g := garbage[i%len(garbage)]
+				if strings.Contains(g, "%s") {
+					g = fmt.Sprintf(g, s)
+				}
+				for _, gp := range []struct {
+					ch  string
+					p   *vfProxy
+					hdr string
+				}{{"garbage-x-real-ip-trusted-peer", rpReal, "X-Real-IP"}, {"garbage-xff-trusted-peer", rpXFF, "X-Forwarded-For"}} {
+					id := fmt.Sprintf("c15g-%s-%s-%d", ns.Name, gp.ch, i)
+					req := vfGET("/x", gp.hdr, g, "X-Vf-Id", id).From(hostport)
+					resp := gp.p.Do(req)
+					if resp.Invalid != "" {
+						continue
+					}
+					got := resp.Code == 200 && len(w.Up.FindHit(id)) > 0
+					run.Eval(fmt.Sprintf("%s|%s|%s|want=false", ns.Name, gp.ch, fam))
+					run.Count("garbage_header_requests", 1)
+					if got {
+						run.Violation("c15:unparseable-client-address-exempted", fmt.Sprintf("networks %v, reverse-proxy mode, %s: %q from peer %s: exempted although the declared client address is not inside any network", ns.Nets, gp.hdr, g, s),
+							map[string]interface{}{"flags": gp.p.Flags, "request": req, "status": resp.Code})
+					}
+				}
+			}
 			// a spoofed header must not matter when reverse-proxy mode is off (detail of C16, cheap to assert here on boundaries)
 			sub := ad.Pos != "universe" || i%8 == 0 || run.Env.Thorough()
 			try("remoteaddr-auth", direct, vfGET("/oauth2/auth").From(hostport), sub)
